@@ -152,6 +152,7 @@ class C05(Prop):
         covered = []
         for label, sched in scheds:
             desc = '%s cuts=%s' % (label, sched[names[0]] if label == 'aligned' else sched)
+            self.__dict__.setdefault('_scheds', set()).add((len(sig[names[0]]), repr(sorted(sched.items()))))
             v.info['schedules'] = v.info.get('schedules', 0) + 1
             try:
                 outs = run_schedule(text, names, sig, sched, pastify)
@@ -196,6 +197,10 @@ class C05(Prop):
         # pairwise cross-check needs no reference at all (only informative here because each schedule was
         # already compared with offline on everything it covers)
         return v
+
+
+    def extra(self, ctx):
+        ctx.stats['distinct_schedules_observed'] = len(self.__dict__.get('_scheds', ()))
 
 
 PROP = C05()
